@@ -4,7 +4,15 @@ Nothing in this module is a proof.
 EXTRA   exception_funnels          syntactic exception-flow obligations over the real AST of the funnels named by the
                                    property (Linter._parse_tokens, Linter.render_string, BaseRule.crawl, the runners,
                                    ParseContext limits, api.simple), ids "C04/static/<name>", plus one dynamic confirmation
-                                   of the rule funnel ("C04/dynamic/crawl-converts-exception").
+                                   of the rule funnel ("C04/dynamic/crawl-converts-exception").  The facts about
+                                   _parse_tokens, render_string, the runners and the class raised by the limits are now DECIDED by
+                                   pyvc contracts (contracts/c04_funnels.py, contracts/c04.py) from the same source; the syntactic
+                                   obligations for them are kept as a second, independent reading.  BaseRule.crawl and api.simple
+                                   are covered only here.
+EXTRA   funnel_scenarios           the real funnel functions RUN with stubbed callees (a parser / templater / lint task that raises):
+                                   the CPython side of the region contracts, ids "C04/dynamic/<funnel>/<clause>".
+BOUNDED python_templater_errors    str.format replacement-field fragments through the python templater: every templating problem must
+                                   come back as TMP, ids "C04/render/python/raised[<Class>]".
 BOUNDED limits_return_violations   max_parse_depth x max_parse_nodes x nested / long / ordinary SQL x dialects x 4 entry points:
                                    the call returns, and a limit that was hit is reported as a PRS violation naming it.
 BOUNDED fuzz_no_crash              seeded character / fragment soup through Linter.lint_string(fix=True), 6 dialects x 3 templaters.
@@ -507,7 +515,9 @@ def exception_funnels(tier="quick", seed=0):
     return {"name": "C04-exception-funnels", "obligations": ob.n, "discharged": ob.n - nf - nu, "failed": ob.failed,
             "undecided": ob.undecided, "samples": ob.samples[:6], "info": info,
             "trusted": ["exception-flow obligations are syntactic: `handler does not re-raise` means no raise statement in the handler body; "
-                        "calls made inside handlers (logging, SQLParseError(...), PositionMarker.source_position) are assumed not to raise",
+                        "calls made inside handlers (logging, SQLParseError(...), PositionMarker.source_position) are assumed not to raise "
+                        "(for Linter._parse_tokens, Linter.render_string and the runners the same facts are decided semantically by the "
+                        "pyvc contracts of contracts/c04_funnels.py; only BaseRule.crawl and api.simple rest on this reading alone)",
                         "exceptions raised outside the guarded calls of each funnel (e.g. in Linter.lint_fix_parsed's own code, apply_fixes, "
                         "lexing other than SQLLexError, any class other than SQLParseError from the parser) reach the caller: not examined"],
             "backend": "ast pattern check on inspect.getsource of the imported functions"}
@@ -908,13 +918,267 @@ def fuzz_no_crash(tier="quick", seed=0):
             "wall_s": round(time.time() - t0, 1)}
 
 
-EXTRA = [exception_funnels]
-BOUNDED = [limits_return_violations, fuzz_no_crash]
+# =============================================================================================== EXTRA: the funnels, run
+def funnel_scenarios(tier="quick", seed=0):
+    """The real functions around the region contracts of contracts/c04_funnels.py, RUN with stubbed callees that behave as the
+    assumed callee contracts allow (a parser / templater / lint task that raises).  A region contract has no native reading; these
+    fixed scenarios are the CPython side of that model (ids C04/dynamic/<funnel>/<clause>)."""
+    import logging
+    logging.disable(logging.CRITICAL)
+    failed, samples = [], []
+    n = 0
+
+    def scenario(name, function, fn):
+        nonlocal n
+        n += 1
+        id_ = f"C04/dynamic/{name}"
+        try:
+            problem = fn()
+        except BaseException as e:     # noqa -- an exception leaving the funnel is the observable
+            if isinstance(e, (KeyboardInterrupt, SystemExit)):
+                raise
+            problem = {"raised": f"{type(e).__name__}: {e}"[:300], "what": "an exception left the funnel"}
+        if problem:
+            failed.append(_failed(id_, function, problem, kind="exception-flow"))
+        elif len(samples) < 4:
+            samples.append({"obligation": id_, "backend": "CPython (real function, stubbed callee)"})
+
+    try:
+        from sqlfluff.core import Linter, FluffConfig
+        from sqlfluff.core.errors import SQLParseError, SQLTemplaterError, SQLFluffSkipFile
+        from sqlfluff.core.parser import parser as PM
+        from sqlfluff.core.linter import runner as RM
+        from sqlfluff.core.templaters.base import RawTemplater
+
+        # ---------------------------------------------------------------- Linter._parse_tokens
+        F = "sqlfluff.core.linter.linter:Linter._parse_tokens"
+        cfg = FluffConfig(overrides={"dialect": "ansi"})
+        tokens, _ = Linter(config=cfg)._lex_templated_file(
+            Linter(config=cfg).render_string("SELECT a, b FROM t\n", "<s>", cfg, "utf-8").templated_variants[0], cfg)
+        calls = []
+        orig_parse = PM.Parser.parse
+
+        def with_parse(stub, fn):
+            PM.Parser.parse = stub
+            try:
+                return fn()
+            finally:
+                PM.Parser.parse = orig_parse
+
+        def over_limit():
+            c2 = FluffConfig(overrides={"dialect": "ansi", "max_parse_nodes": len(tokens) - 1})
+
+            def stub(self, segments, fname=None, parse_statistics=False):
+                calls.append(len(segments))
+                return orig_parse(self, segments, fname=fname, parse_statistics=parse_statistics)
+            tree, vs = with_parse(stub, lambda: Linter._parse_tokens(tokens, c2))
+            if tree is not None or len(vs) != 1 or not isinstance(vs[0], SQLParseError) or calls:
+                return {"tree": repr(tree)[:60], "violations": [v.desc()[:80] for v in vs], "parser_calls": len(calls),
+                        "expected": "(None, [one SQLParseError]) and no call of Parser.parse"}
+        scenario("parse_tokens/over-limit-no-parse", F, over_limit)
+
+        def at_limit():
+            c2 = FluffConfig(overrides={"dialect": "ansi", "max_parse_nodes": len(tokens)})
+            del calls[:]
+
+            def stub(self, segments, fname=None, parse_statistics=False):
+                calls.append(len(segments))
+                raise SQLParseError("c04-probe")
+            tree, vs = with_parse(stub, lambda: Linter._parse_tokens(tokens, c2))
+            if len(calls) != 1 or tree is not None or len(vs) != 1 or "c04-probe" not in vs[0].desc():
+                return {"parser_calls": len(calls), "violations": [v.desc()[:80] for v in vs],
+                        "expected": "len(tokens) == max_parse_nodes is within the limit: the parser runs, its SQLParseError comes back as the one violation"}
+        scenario("parse_tokens/at-limit-parses-and-captures", F, at_limit)
+
+        def limit_disabled():
+            c2 = FluffConfig(overrides={"dialect": "ansi", "max_parse_nodes": 0})
+            tree, vs = Linter._parse_tokens(tokens, c2)
+            if tree is None or vs:
+                return {"violations": [v.desc()[:80] for v in vs], "expected": "max_parse_nodes = 0 disables the pre-check"}
+        scenario("parse_tokens/limit-zero-disabled", F, limit_disabled)
+
+        # ---------------------------------------------------------------- Linter.render_string
+        F = "sqlfluff.core.linter.linter:Linter.render_string"
+
+        class Boom(RawTemplater):
+            exc = None
+
+            def process(self, *, in_str, fname, config=None, formatter=None):
+                raise self.exc
+
+        def render_with(exc):
+            lnt = Linter(config=cfg)
+            t = Boom()
+            t.exc = exc
+            lnt.templater = t
+            c2 = cfg.copy()
+            c2._configs["core"]["templater_obj"] = t
+            return lnt.render_string("SELECT 1\n", "<s>", c2, "utf-8")
+
+        def templater_error():
+            err = SQLTemplaterError("c04-probe")
+            r = render_with(err)
+            if r.templated_variants or len(r.templater_violations) != 1 or r.templater_violations[0] is not err:
+                return {"variants": len(r.templated_variants), "violations": [v.desc()[:80] for v in r.templater_violations],
+                        "expected": "no variant, the raised SQLTemplaterError as the one templater violation"}
+        scenario("render_string/templater-error-recorded", F, templater_error)
+
+        def skip_file():
+            r = render_with(SQLFluffSkipFile("c04-probe"))
+            if r.templated_variants or r.templater_violations:
+                return {"variants": len(r.templated_variants), "violations": len(r.templater_violations)}
+        scenario("render_string/skipfile-contained", F, skip_file)
+
+        # ---------------------------------------------------------------- runners
+        class Out:
+            def __init__(self, path):
+                self.path = path
+
+        class Job:
+            def __init__(self, path, exc=None):
+                self.path, self.exc = path, exc
+
+            def __call__(self):
+                if self.exc is not None:
+                    raise self.exc
+                return Out(self.path)
+
+        class StubLinter:
+            formatter = None
+            config = cfg
+
+        def parts(*jobs):
+            return [(j.path, j) for j in jobs]
+
+        F = "sqlfluff.core.linter.runner:SequentialRunner.run"
+
+        def make(cls, jobs, **kw):
+            class R(cls):
+                def iter_partials(self, fnames, fix=False):
+                    yield from parts(*jobs)
+            return R(StubLinter(), cfg, **kw)
+
+        def seq_continues():
+            r = make(RM.SequentialRunner, [Job("a"), Job("b", RuntimeError("c04-probe")), Job("c", AssertionError()), Job("d")])
+            got = [o.path for o in r.run(["a", "b", "c", "d"], False)]
+            if got != ["a", "d"]:
+                return {"yielded": got, "expected": ["a", "d"]}
+        scenario("sequential-run/continues-after-failure", F, seq_continues)
+
+        def seq_oserror():
+            r = make(RM.SequentialRunner, [Job("a"), Job("b", FileNotFoundError("c04-probe")), Job("c")])
+            try:
+                list(r.run(["a", "b", "c"], False))
+            except OSError:
+                return None
+            return {"what": "an OSError raised while linting a file was swallowed (documented: passed on to the CLI)"}
+        scenario("sequential-run/oserror-passed-on", F, seq_oserror)
+
+        F = "sqlfluff.core.linter.runner:ParallelRunner.run"
+
+        def par_continues():
+            r = make(RM.MultiThreadRunner, [Job("a"), Job("b", RuntimeError("c04-probe")), Job("c", SQLFluffSkipFile("c04-probe")), Job("d")],
+                     processes=2)
+            got = sorted(o.path for o in r.run(["a", "b", "c", "d"], False))
+            if got != ["a", "d"] or r.skipped_file_count != 1:
+                return {"yielded": got, "skipped_file_count": r.skipped_file_count, "expected": {"yielded": ["a", "d"], "skipped_file_count": 1}}
+        scenario("parallel-run/continues-after-failure-and-counts-skip", F, par_continues)
+
+        def apply_never_raises():
+            bad = []
+            for exc in (RuntimeError("x"), KeyError("k"), RecursionError(), OSError("io"), SQLFluffSkipFile("s"), AssertionError()):
+                out = RM.ParallelRunner._apply(("f.sql", Job("f.sql", exc)))
+                if not (isinstance(out, RM.DelayedException) and out.ee is exc and out.fname == "f.sql"):
+                    bad.append(type(exc).__name__)
+            if bad:
+                return {"not returned as DelayedException(exc, fname)": bad}
+        scenario("parallel-apply/returns-delayed-exception", "sqlfluff.core.linter.runner:ParallelRunner._apply", apply_never_raises)
+    finally:
+        logging.disable(logging.NOTSET)
+    return {"name": "C04-funnel-scenarios", "obligations": n, "discharged": n - len(failed), "failed": failed, "undecided": [],
+            "samples": samples[:4], "backend": "CPython: real funnel functions, callees stubbed as their assumed contracts allow",
+            "trusted": ["funnel scenarios are fixed inputs (no quantifier): they tie the symbolic model of the region contracts to CPython, "
+                        "they are not coverage"]}
+
+
+# =============================================================================================== BOUNDED: python templater
+_PY_FORMAT_FRAGS = ["{", "}", "{}", "{0}", "{a}", "{b}", "{a", "a}", "{a[0]}", "{a[}", "{a.b}", "{a.}", "{x[5]}", "{x[0]}", "{x[k]}", "{a!z}",
+                    "{a!r}", "{a:zz}", "{a:>5}", "{a:{}}", "{a:{b}}", "{:}", "{!r}", "{[0]}", "{.a}", "{{", "}}", "{{}", "{}}", "{{a}}", "{a}{", "}{",
+                    "{ }", "{a b}", "{0.a}", "{s:d}", "{a:s}", "{a:,}", "{a:.2f}", "{s.upper}", "{x.__class__}", "{a:%}", "{\n}", "{a\n}"]
+
+
+def _py_task(s):
+    import logging
+    logging.disable(logging.CRITICAL)
+    from sqlfluff.core import Linter, FluffConfig
+    key = "python"
+    if key not in _LINTERS:
+        _LINTERS[key] = Linter(config=FluffConfig(configs={"core": {"dialect": "ansi", "templater": "python"},
+                                                            "templater": {"python": {"context": {"a": 1, "s": "t", "x": [1, 2]}}}}))
+    try:
+        with _deadline(_FUZZ_LIMIT_S):
+            lf = _LINTERS[key].lint_string(s, fix=True)
+        codes = sorted({v.rule_code() for v in lf.get_violations(filter_ignore=False, filter_warning=False)})
+        return (s, None, codes)
+    except _Timeout:
+        return (s, ("timeout", "lint_string", "no result"), None)
+    except BaseException as e:     # noqa -- the observable of C04
+        if isinstance(e, (KeyboardInterrupt, SystemExit)):
+            raise
+        tb = traceback.extract_tb(e.__traceback__)
+        site = next((f"{f.filename.split('sqlfluff' + os.sep)[-1]}:{f.name}" for f in reversed(tb)
+                     if os.sep + "sqlfluff" + os.sep in f.filename), "?")
+        return (s, (type(e).__name__, site, str(e)[:200]), None)
+
+
+def python_templater_errors(tier="quick", seed=0):
+    """The python templater (str.format) on malformed / unusual replacement fields: every problem must come back as a TMP
+    violation (property: templating problems are reported as TMP), never as an exception out of Linter.lint_string."""
+    rng = random.Random(f"c04-pyformat-{seed}")
+    wraps = ["{}", "SELECT {} FROM t\n", "SELECT 1 -- {}\n"]
+    inputs = [w.replace("{}", f, 1) for f in _PY_FORMAT_FRAGS for w in wraps]
+    for _ in range(600 if tier == "thorough" else 60):
+        inputs.append("SELECT " + "".join(rng.choice(_PY_FORMAT_FRAGS + [" ", "a", ",", "\n"]) for _ in range(rng.randint(1, 4))) + "\n")
+    inputs = list(dict.fromkeys(inputs))
+    t0 = time.time()
+    with _pool(4) as pool:
+        res = list(pool.map(_py_task, inputs, chunksize=8))
+    by = {}
+    for s, bad, codes in res:
+        if bad:
+            by.setdefault(bad[0], []).append((len(s), s, bad))
+    failed = []
+    for cls, lst in sorted(by.items()):
+        lst.sort()
+        _, s, bad = lst[0]
+        id_ = f"C04/render/python/raised[{cls}]"
+        failed.append(_failed(id_, "sqlfluff.core.linter.linter:Linter.lint_string",
+                              {"input": s, "input_repr": ascii(s), "templater": "python", "context": {"a": 1, "s": "t", "x": [1, 2]},
+                               "raised": f"{cls}: {bad[2]}", "site": bad[1], "occurrences": len(lst),
+                               "other_inputs": [ascii(x[1]) for x in lst[1:6]],
+                               "call": "Linter(config=FluffConfig(configs={'core': {'dialect': 'ansi', 'templater': 'python'}, 'templater': "
+                                       "{'python': {'context': {'a': 1, 's': 't', 'x': [1, 2]}}}})).lint_string(<input>)",
+                               "what": "a templating problem left lint_string as an exception instead of a TMP violation "
+                                       "(PythonTemplater.process converts only KeyError; Linter.render_string catches only SQLTemplaterError)"},
+                              name=f"{id_} at {bad[1]}"))
+    tmp = sum(1 for s, bad, codes in res if codes and "TMP" in codes)
+    return {"name": "python-templater-errors",
+            "bound": f"{len(_PY_FORMAT_FRAGS)} str.format replacement-field fragments x {len(wraps)} contexts + seeded combinations "
+                     f"({len(inputs)} strings), python templater with context a=1, s='t', x=[1, 2], Linter.lint_string(fix=True)",
+            "rule": "non-trivial = the text contains a brace", "evaluations": len(res),
+            "distinct_nontrivial": sum(1 for s, _, _ in res if "{" in s or "}" in s),
+            "samples": [{"input_repr": ascii(s), "outcome": "TMP violation"} for s, bad, codes in res if codes and "TMP" in codes][:3],
+            "reported_as_TMP": tmp, "failed": failed, "wall_s": round(time.time() - t0, 1)}
+
+
+EXTRA = [exception_funnels, funnel_scenarios]
+BOUNDED = [limits_return_violations, fuzz_no_crash, python_templater_errors]
 
 TRUSTED = ["limit probes: `a limit was reached` is observed by read-only wrappers around ParseContext.deeper_match / increment_parse_nodes "
            "that evaluate the proved raise-conditions of contracts/c04.py on the live context before delegating to the real method"]
-NOT_COVERED = ["exceptions escaping for inputs outside the seeded samples; CLI entry points; file-based linting (runners are checked "
-               "syntactically only); plugins; the dbt templater"]
+NOT_COVERED = ["exceptions escaping for inputs outside the seeded samples; CLI entry points; file-based linting end to end (the runner "
+               "funnels themselves are under pyvc contracts, contracts/c04_funnels.py; Linter.lint_paths around them is not); plugins; "
+               "the dbt / sqlmesh templaters"]
 
 MUTANTS = [
     ("parse_tokens_catches_lex_only", "sqlfluff/core/linter/linter.py",
